@@ -9,6 +9,7 @@ Case (plain JSON)::
      "uses": "vk",       # subset of v (varargs), k (kwargs), c (caller) referenced by the macro body
      "npos": 2,          # positional arguments 'A0', 'A1', ...
      "kw": ["p1", "zz"], # keyword argument names, value 'K<name>'
+     "none": ["p1"],     # optional: arguments (keyword names, positionals "A<i>") whose value is none instead
      "shape": "plain",   # plain | star | dstar | both | dup | call | py
      "env": "sync"}      # sync | async (async: template shapes only)
 
@@ -26,18 +27,20 @@ EXHAUSTIVE = (
     "{constant, earlier parameter, outer variable}, plus the vectors with one default naming its own parameter (outer "
     "variable of that name absent and present) among constants, x the 8 subsets of {varargs, kwargs, caller} used by the body x 0-5 "
     "positional arguments x every set of <= 3 keyword names from {p0, p1, p2, zz} x 7 call shapes (plain, *list, **dict, "
-    "both, **dict repeating an explicit keyword, call block, Python call through template.module), sync environment; plus "
+    "both, **dict repeating an explicit keyword, call block, Python call through template.module), sync environment; plus, on signatures with <= 2 parameters, <= 2 positionals and <= 2 keywords (plain, *list, **dict, Python "
+    "shapes), each keyword in turn and the last positional passed with the value none; plus "
     "the same with the unknown keyword named self (<= 2 parameters) and arguments / args (<= 1 parameter)"
 )
 RULE = (
     "itertools enumeration sliced over 16 shards of signature (0-4 parameters; quick 0-3) x default kinds per trailing "
     "default (<= 3; full product over constant / earlier parameter / outer variable, plus one self-naming default p=p "
     "among constants, with and without an outer variable of that name) x body uses of varargs/kwargs/caller x 0-5 positional x keyword-name sets (<= 4 of {p0..p3, zz}; quick "
-    "<= 3 of {p0..p2, zz}; the unknown name zz also spelled self for <= 2 parameters and arguments / args for <= 1) x call shape (plain, star, dstar, both, dup, call block, python) x environment (thorough adds the "
+    "<= 3 of {p0..p2, zz}; the unknown name zz also spelled self for <= 2 parameters and arguments / args for <= 1) x call shape (plain, star, dstar, both, dup, call block, python), on small signatures also with one "
+    "argument value replaced by none, x environment (thorough adds the "
     "async environment for the template shapes and, in the sync environment, one more step: 5 parameters, 6 positionals, "
     "keyword p4); each call rendered and compared with the binding specification. "
     "Non-trivial = the call has surplus positionals, an unknown or already-filled keyword, an evaluated default that refers "
-    "to an earlier parameter or names its own parameter, star-args / double-star, or a call block; distinct = distinct case."
+    "to an earlier parameter or names its own parameter, an argument whose value is none, star-args / double-star, or a call block; distinct = distinct case."
 )
 ASSUMPTIONS = [
     "binding specification transcribed from the property statement and docs/templates.rst (Macros, Call): positional fill, "
@@ -53,6 +56,8 @@ ASSUMPTIONS = [
     "a parameter name inside a default expression denotes the macro's parameter, which is undefined while unfilled, and "
     "never an outer variable of that name (tests/test_core_tags.py::TestMacros::test_macro_defaults_self_ref pins this "
     "shadowing); in particular it is never an internal sentinel",
+    "none passed as an argument is an ordinary defined value (prints 'None', is kept in varargs / kwargs, stops the "
+    "default); only an argument that is not passed leaves the parameter to its default / undefined",
     "the unknown keyword is also generated under the names self, arguments and args (they collide with Python-level "
     "names of the runtime's Macro but are ordinary extra keywords for the template: kwargs or TypeError); a parameter "
     "DECLARED as self and an explicit caller= keyword are not generated (undocumented)",
@@ -62,7 +67,20 @@ ASSUMPTIONS = [
 
 SHAPES = ["plain", "star", "dstar", "both", "dup", "call", "py"]
 EXTRA_KW_NAMES = [("self", 2), ("arguments", 1), ("args", 1)]
+NONE_SHAPES = ("plain", "star", "dstar", "py")
 TYPEERROR = "<TypeError>"
+
+
+class _Undef:
+    def __repr__(self):
+        return "<undefined>"
+
+
+UNDEF = _Undef()  # the specification's undefined (None is an ordinary argument value)
+
+
+def _value(case, name, text):
+    return None if name in (case.get("none") or ()) else text
 
 
 def _params(case):
@@ -79,8 +97,10 @@ def spec(case):
     params = _params(case)
     nd = len(dk)
     reasons = set()
-    pos = ["A%d" % i for i in range(npos)]
-    kw = {k: "K" + k for k in case["kw"]}
+    pos = [_value(case, "A%d" % i, "A%d" % i) for i in range(npos)]
+    kw = {k: _value(case, k, "K" + k) for k in case["kw"]}
+    if case.get("none"):
+        reasons.add("none_value")
     if shape in ("star", "both", "dstar", "dup"):
         reasons.add("starargs")
     if shape == "call":
@@ -118,19 +138,19 @@ def spec(case):
             elif kind == "o":
                 v = "OV"
             elif kind == "e":
-                v = (vals[i - 1] or "") + "+e"  # an undefined earlier parameter concatenates as ''
+                v = ("" if vals[i - 1] is UNDEF else str(vals[i - 1])) + "+e"  # undefined concatenates as ''
                 reasons.add("default_earlier")
             elif kind in ("s", "S"):
-                v = None  # p=p: the (still unfilled) parameter itself, whether or not an outer p exists
+                v = UNDEF  # p=p: the (still unfilled) parameter itself, whether or not an outer p exists
                 reasons.add("default_self")
             else:
                 raise core.HarnessError("default kind %r" % kind)
         else:
-            v = None  # undefined
+            v = UNDEF
         vals.append(v)
-    out = "|".join("U" if v is None else v for v in vals)
+    out = "|".join("U" if v is UNDEF else str(v) for v in vals)  # none is a defined value and prints as None
     if "v" in uses:
-        out += "|va=" + ",".join(surplus)
+        out += "|va=" + ",".join(map(str, surplus))
     if "k" in uses:
         out += "|kw=" + repr(sorted(kw.items()))
     if "c" in uses:
@@ -174,26 +194,30 @@ def macro_source(case):
 def call_parts(case):
     """-> (argument source text, extra context variables, python args, python kwargs)"""
     npos, kws, shape = case["npos"], case["kw"], case["shape"]
-    pos = ["A%d" % i for i in range(npos)]
-    kwv = [(k, "K" + k) for k in kws]
+    unknown = set(case.get("none") or ()) - set(kws) - {"A%d" % i for i in range(npos)}
+    if unknown:
+        raise core.HarnessError("none marks arguments that are not passed: %r" % sorted(unknown))
+    pos = [_value(case, "A%d" % i, "A%d" % i) for i in range(npos)]
+    kwv = [(k, _value(case, k, "K" + k)) for k in kws]
+    lit = lambda v: "none" if v is None else "'%s'" % v  # noqa: E731
     ctx = {}
     if shape in ("star", "both"):
         cut = npos // 2
-        args = ["'%s'" % a for a in pos[:cut]] + ["*L"]
+        args = [lit(a) for a in pos[:cut]] + ["*L"]
         ctx["L"] = pos[cut:]
     else:
-        args = ["'%s'" % a for a in pos]
+        args = [lit(a) for a in pos]
     if shape in ("dstar", "both"):
         cut = len(kwv) // 2
-        args += ["%s='%s'" % kv for kv in kwv[:cut]] + ["**D"]
+        args += ["%s=%s" % (k, lit(v)) for k, v in kwv[:cut]] + ["**D"]
         ctx["D"] = dict(kwv[cut:])
     elif shape == "dup":
         if not kwv:
             raise core.HarnessError("dup shape needs a keyword")
-        args += ["%s='%s'" % kv for kv in kwv] + ["**D"]
+        args += ["%s=%s" % (k, lit(v)) for k, v in kwv] + ["**D"]
         ctx["D"] = {kwv[0][0]: "X"}
     else:
-        args += ["%s='%s'" % kv for kv in kwv]
+        args += ["%s=%s" % (k, lit(v)) for k, v in kwv]
     return ", ".join(args), ctx, pos, dict(kwv)
 
 
@@ -290,8 +314,17 @@ def all_cases(tier):
                                 for envname in b["envs"]:
                                     if envname != "sync" and (shape == "py" or np_ > 4 or npos > 5 or "p4" in kws):
                                         continue
-                                    yield {"np": np_, "dk": dk, "uses": uses, "npos": npos, "kw": kws,
-                                           "shape": shape, "env": envname}
+                                    case = {"np": np_, "dk": dk, "uses": uses, "npos": npos, "kw": kws,
+                                            "shape": shape, "env": envname}
+                                    yield case
+                                    # argument value none (a defined value, distinct from "not passed"): one keyword
+                                    # at a time, and the last positional, on the small signatures
+                                    if (np_ <= 2 and npos <= 2 and len(kws) <= 2 and np_lim == 99 and envname == "sync"
+                                            and shape in NONE_SHAPES):
+                                        for k in kws:
+                                            yield dict(case, none=[k])
+                                        if npos and shape != "dstar":
+                                            yield dict(case, none=["A%d" % (npos - 1)])
 
 
 def shards(tier):
@@ -305,7 +338,7 @@ def run_shard(spec_, ctx):
 def floors(total, tier):
     lab = total.labels
     need = ["shape_" + s for s in SHAPES] + ["out_typeerror", "out_text", "nt_surplus_pos", "nt_unknown_kw",
-                                            "nt_filled_kw", "nt_default_earlier", "nt_default_self", "nt_starargs", "nt_callblock", "kw_self", "kw_arguments",
+                                            "nt_filled_kw", "nt_default_earlier", "nt_default_self", "nt_starargs", "nt_callblock", "nt_none_value", "kw_self", "kw_arguments",
                                             "kw_args"]
     low = [n for n in need if lab.get(n, 0) < 500]
     if low:
